@@ -232,7 +232,9 @@ fn rejection_cost(spec: &Spec) -> f64 {
 
 fn check_setting(ctx: &Ctx, setting: &Setting, seed: u64, n_target: usize) {
     let spec = &setting.spec;
-    let n = n_target.min((4e8 / rejection_cost(spec)) as usize).max(if rejection_cost(spec) > 2e4 { 3_000 } else { 20_000 });
+    let n = n_target.min((4e8 / rejection_cost(spec)) as usize).max(if rejection_cost(spec) > 3e5 { 1_200 } else if rejection_cost(spec) > 2e4 { 3_000 } else { 20_000 });
+    // very wide boxes: thousands of pairwise independence tests, fewer samples each
+    let n = if spec.width() >= 40 { n.min(20_000) } else { n };
     let eps = dkw_eps(n);
     let mut b = Batch::default();
     let mut r = Sm::derive(seed, &[14, spec.width() as u64]);
@@ -358,6 +360,11 @@ fn settings(r: &mut Sm, k: usize) -> Vec<Setting> {
     for (c, rad) in [(r.quat(), 2.6), (r.quat(), 3.0), ([1.0, 0.0, 0.0, 0.0], 1.0), (axis_angle_q([0.6, 0.0, 0.8], 2.6), 1.2)] {
         v.push(Setting { spec: Spec::plain(Wrap::So3, CK::So3 { bounds: Some((c, rad)) }, None), via: "direct" });
     }
+    // a cone below 0.08 rad (1 200 samples are affordable: epsilon 0.094, still far below the
+    // distance between the cubic angle law and, say, a uniform angle) and a box with more than 48
+    // coordinates (all 2 450 ordered pairs are tested for independence)
+    v.push(Setting { spec: Spec::plain(Wrap::So3, CK::So3 { bounds: Some((r.quat(), 0.07)) }, None), via: "direct" });
+    v.push(Setting { spec: Spec::plain(Wrap::R, CK::R { n: 50, bounds: Some(rb(r, 50)) }, None), via: "direct" });
     // a box with more than 8 / 16 coordinates
     v.push(Setting { spec: Spec::plain(Wrap::R, CK::R { n: 17, bounds: Some(rb(r, 17)) }, None), via: "direct" });
     for i in 0..k {
